@@ -215,15 +215,27 @@ def verify_function(repo, qual, con, types, contracts, specfuns=None, timeout_ms
             sys.stderr.write("[pyvc] %s: symbolic execution %.1fs, %d obligations, %d feasibility checks\n"
                              % (qual, time.time() - t0, len(E.obligations), E.feas_checks))
         only = os.environ.get("PYVC_ONLY")
+        nbad = 0
         for ob in E.obligations:
             if only and only not in ob.name:
                 continue
+            if nbad >= MAX_FAILED_PER_FUNCTION:
+                # a changed function can turn hundreds of obligations `unknown`, each costing every solver stage: after a few
+                # failures the rest is not attempted (reported as unknown, never as discharged)
+                fr.obligations.append(dict(name=ob.name, kind=ob.kind, verdict="unknown", time=0.0, model=None,
+                                           solver="not attempted: %d obligations of this function already failed" % nbad))
+                continue
             r = discharge(ob, timeout_ms, slice_first=bool(con.get("slice_first")))
+            if r["verdict"] != "discharged":
+                nbad += 1
             if trace and (r["time"] > 0.5 or r["verdict"] != "discharged"):
                 sys.stderr.write("[pyvc]   %s %s %.2fs\n" % (r["name"], r["verdict"], r["time"]))
             fr.obligations.append(r)
     fr.wall = time.time() - t0
     return fr
+
+
+MAX_FAILED_PER_FUNCTION = 6
 
 
 def discharge(ob, timeout_ms=10000, slice_first=False):
